@@ -14,7 +14,7 @@ Separate Extraction
   Model.Fleet.model_C19 Model.Fleet.ok_C19 Model.Fleet.c19_obs_eqb Model.Fleet.addressed
   Model.Limits.model_C17_abs Model.Limits.ok_C17_abs Model.Limits.c17_obs_eqb Model.Limits.replacement_bound
   Model.Svs.model_C09 Model.Svs.model_C09_with Model.Svs.ok_C09 Model.Svs.c09_wf Model.Svs.resps_eqb Model.Svs.resp_eqb Model.Svs.hlres_eqb Model.Svs.bytes_eqb Model.Svs.bodies
-  Model.Registry.model_C14 Model.Registry.model_full Model.Registry.ok_C14 Model.Registry.c14_wf Model.Registry.spec_C14 Model.Registry.ostep_eqb Model.Registry.rstep Model.Registry.sstep Model.Registry.obs_out Model.Registry.is_request Model.Registry.jp_eval Model.Registry.jp_parse Model.Registry.rstate0 Model.Registry.sstate0
+  Model.Registry.model_C14 Model.Registry.model_full Model.Registry.ok_C14 Model.Registry.c14_wf Model.Registry.spec_C14 Model.Registry.ostep_eqb Model.Registry.rstep Model.Registry.sstep Model.Registry.obs_out Model.Registry.is_request Model.Registry.jp_eval Model.Registry.ok_jp Model.Registry.jp_parse Model.Registry.rstate0 Model.Registry.sstate0
   Model.Beve.model_C08 Model.Beve.ok_C08 Model.Beve.c08_wf Model.Beve.ety_all
   Model.SvsCommit.model_C10 Model.SvsCommit.ok_C10 Model.SvsCommit.c10_wf Model.SvsCommit.c10_obs_match
   Model.Router.model_C07 Model.Router.ok_C07 Model.Router.ok_C07_pair Model.Router.answer_eqb Model.JsonPtr.parse Model.JsonPtr.struct_segments Model.JsonPtr.well_escaped Model.JsonPtr.pointer_shaped
